@@ -96,7 +96,11 @@ func (g *G) formatArg(verb byte, flags string, a Value) Str {
 					return S("<nil>")
 				}
 			}
-			s := g.errorString(x)
+			efn := g.findMethod(x.T, "Error")
+			s, ok := g.callCatch(&Closure{Fn: efn}, []Value{x.V})
+			if !ok {
+				return S("%!" + string(verb) + "(PANIC=Error method)")
+			}
 			if verb == 'q' {
 				return g.quoteStr(s)
 			}
@@ -104,7 +108,14 @@ func (g *G) formatArg(verb byte, flags string, a Value) Str {
 		}
 		if g.findMethodSig(x.T, "String", "func() string") {
 			fn := g.findMethod(x.T, "String")
-			s := g.callFn(&Closure{Fn: fn}, []Value{x.V}, g.top, token.NoPos).(Str)
+			s, ok := g.callCatch(&Closure{Fn: fn}, []Value{x.V})
+			if !ok {
+				// fmt's catchPanic: a nil receiver prints <nil>, otherwise the panic is reported in-line
+				if p, isP := x.V.(*Value); isP && p == nil {
+					return S("<nil>")
+				}
+				return S("%!" + string(verb) + "(PANIC=String method)")
+			}
 			if verb == 'q' {
 				return g.quoteStr(s)
 			}
@@ -347,4 +358,18 @@ func (g *G) writeTo(w Iface, p Value) Value {
 		panic("writeTo: no Write on " + w.T.String())
 	}
 	return g.callFn(&Closure{Fn: fn}, []Value{w.V, p}, g.top, token.NoPos)
+}
+
+// callCatch calls a String/Error method the way fmt does: a panic inside it is caught.
+func (g *G) callCatch(cl *Closure, args []Value) (res Str, ok bool) {
+	defer func() {
+		if p := recover(); p != nil {
+			if _, isTP := p.(targetPanic); isTP {
+				ok = false
+				return
+			}
+			panic(p)
+		}
+	}()
+	return g.callFn(cl, args, g.top, token.NoPos).(Str), true
 }
